@@ -161,3 +161,22 @@ Qed.
 (* ---- @sizeof reads back the declared size, whenever it is evaluated ----------------- *)
 Lemma find_meta_size v : find_meta SIZEOF_KEY (size_meta v) = Some (dec_string v).
 Proof. reflexivity. Qed.
+
+(* the gap is the LEAST non-negative padding that reaches a multiple of the alignment; in particular none at a boundary *)
+Lemma align_gap_least size a p : 2 <= a -> 0 <= p -> (size + p) mod a = 0 -> align_gap size a <= p.
+Proof.
+  intros Ha Hp Hd. destruct (align_gap_spec size a Ha) as [[Hg0 Hg1] Hgd].
+  destruct (Z_le_gt_dec (align_gap size a) p) as [H|H]; [exact H|exfalso].
+  (* two paddings below a that both reach a multiple differ by a multiple of a smaller than a *)
+  assert (Hm : (align_gap size a - p) mod a = 0).
+  { replace (align_gap size a - p) with ((size + align_gap size a) - (size + p)) by ring.
+    rewrite Zminus_mod, Hgd, Hd. reflexivity. }
+  rewrite Z.mod_small in Hm by lia. lia.
+Qed.
+
+Lemma align_gap_at_boundary size a : 2 <= a -> size mod a = 0 -> align_gap size a = 0.
+Proof.
+  intros Ha Hs. pose proof (align_gap_least size a 0 Ha (Z.le_refl 0)) as H.
+  rewrite Z.add_0_r in H. specialize (H Hs).
+  destruct (align_gap_spec size a Ha) as [[Hg0 _] _]. lia.
+Qed.
